@@ -45,7 +45,10 @@ def _histories(draw):
         m = draw(st.integers(1, 3))
         steps.append({"op": op, "m": m, "which": draw(st.integers(0, nm - 1)), "scale": draw(st.sampled_from([0.0, 0.3, 1.0, 3.0, 3.0, 8.0, 40.0, 2000.0])),
                       "dir": [draw(st.floats(-1, 1)) for _ in range(3)], "tie": draw(st.booleans()), "rlog": draw(st.sampled_from([-2.0, 0.0, 1.0]))})
-    return {"kind": kind, "nm": nm, "hyp": hyp, "thr": thr, "pct": pct, "steps": steps, "alpha": draw(st.sampled_from([1.0, 0.5]))}
+    # a third of the cases at orbital magnitudes: states ~4e4 with ~0.1 m sigmas, where algebraically equal covariance formulas
+    # differ by catastrophic cancellation
+    orbital = draw(st.sampled_from([False, False, True]))
+    return {"kind": kind, "nm": nm, "hyp": hyp, "thr": thr, "pct": pct, "steps": steps, "alpha": draw(st.sampled_from([1.0, 0.5])), "orbital": orbital}
 
 
 def _build(c):
@@ -58,9 +61,11 @@ def _build(c):
 
     n = 4
     f = np.eye(n) + 0.01 * np.diag(np.ones(n - 1), 1)
-    p0 = np.diag([1.0, 1.0, 0.1, 0.1])
-    q = 1e-4 * np.eye(n)
-    nominal = UnscentedKalmanFilter(77, ScenarioTime(0.0), np.zeros(n), p0, _LinearDynamics(f), q, maneuver_detection=StandardNis(0.05),
+    ps = 1e-8 if c.get("orbital") else 1.0
+    off = np.array([42164.0, -7000.0, 3.07, 1.5]) if c.get("orbital") else np.zeros(n)
+    p0 = ps * np.diag([1.0, 1.0, 0.1, 0.1])
+    q = ps * 1e-4 * np.eye(n)
+    nominal = UnscentedKalmanFilter(77, ScenarioTime(0.0), off.copy(), p0, _LinearDynamics(f), q, maneuver_detection=StandardNis(0.05),
                                     adaptive_estimation=True, alpha=c["alpha"])
     nominal.maneuver_detection.metric = 1.0
     cfg = constructFromUnion(AdaptiveEstimationConfig, {"name": c["kind"], "prune_threshold": c["thr"], "prune_percentage": c["pct"]})
@@ -68,7 +73,7 @@ def _build(c):
     # state that initialize() leaves behind (hypothesis generation through Lambert / the database is C20's subject)
     mm.num_models = c["nm"]
     mm.mmae_antecedent_time = ScenarioTime(0.0)
-    mm.models = mm._createModels(np.array(c["hyp"], dtype=float))
+    mm.models = mm._createModels(off + math.sqrt(ps) * np.array(c["hyp"], dtype=float))
     mm.model_likelihoods = np.ones(c["nm"])
     mm.model_weights = np.ones(c["nm"]) / c["nm"]
     mm.mode_probabilities = np.ones(c["nm"]) / c["nm"]
@@ -144,6 +149,19 @@ def history(c, rec):
             rec.label("filter_through_object_store")
         mm.predict(ScenarioTime(t))
         w_prior = np.asarray(mm.model_weights, dtype=float).copy()
+        # the combined prediction is the moment-matched mixture of the models' predictions
+        pxs = np.array([m_.pred_x for m_ in mm.models])
+        pmean = w_prior @ pxs
+        pcov = sum(wi * (np.asarray(m_.pred_p) + np.outer(xi - pmean, xi - pmean)) for wi, xi, m_ in zip(w_prior, pxs, mm.models))
+        if float(np.abs(np.asarray(mm.pred_x) - pmean).max()) > 1e-10 * (1.0 + float(np.abs(pxs).max())):
+            raise Violation("combined_prediction", f"step {k}: combined predicted state is not the probability-weighted mean of the models' predictions")
+        # (differences of nearby large states: rounding is ~eps * |x| * spread, far below the covariance itself)
+        ptol = 1e-9 * float(np.abs(pcov).max()) + 64 * np.finfo(float).eps * float(np.abs(pxs).max()) * (1e-300 + float(np.abs(pxs - pmean).max()))
+        dpc = float(np.abs(np.asarray(mm.pred_p) - pcov).max())
+        rec.err("combined_pred_cov_rel", dpc / float(np.abs(pcov).max()))
+        if dpc > ptol or float(np.linalg.eigvalsh((np.asarray(mm.pred_p) + np.asarray(mm.pred_p).T) / 2).min()) < -ptol:
+            raise Violation("combined_prediction", f"step {k}: combined predicted covariance differs from the moment-matched mixture covariance by {dpc:.3e} (largest entry {np.abs(pcov).max():.3e}, states ~{np.abs(pxs).max():.1e})")
+        rec.label("orbital_magnitudes" if c.get("orbital") else "toy_magnitudes")
         mu_prior = np.asarray(mm.mode_probabilities, dtype=float).copy()
         n_before = len(mm.models)
         if stp["op"] == "empty":
